@@ -91,6 +91,9 @@ def r2_accept_pairing(ctx):
                 good = len(ap) == 1 and len(sv) == 1 and ap[0][2][1] == ('ref', ('fld', ('der', ('p', 1)), 'board')) and \
                     strip(sv[0][2][1]) == strip(ap[0][2][0]) and o.events.index(ap[0]) < o.events.index(sv[0])
                 applied_ok = [c for c in o.conds if c[0] == ('discr', ('call', AP, ap[0][2], ap[0][3])) and c[1] == 0] if ap else []
+                # apply_chess_move plays THE move it is handed (not a rewritten copy: a promotion keeps the piece the caller chose)
+                if good and m == 'apply_chess_move' and strip(ap[0][2][0]) != ('p', 2):
+                    good = False
                 if not (good and applied_ok):
                     bad.append(('ok-path', [e[1].rsplit('::', 1)[-1] for e in ap + sv]))
             else:
